@@ -129,6 +129,9 @@ func (h *c17Helper) stop() {
 	}
 }
 
+// c17Patience bounds calls that must return "promptly"; generous, so that machine load cannot fake a violation.
+const c17Patience = 90 * time.Second
+
 // ---------------------------------------------------------------------------------------------
 // (a) lock programs
 
@@ -194,8 +197,8 @@ func c17LockProgram(steps []c17Step) (v *drv.Violation, conflicts int) {
 			if !strings.HasPrefix(l, "closed "+hd.id) {
 				return drv.Violf("harness: helper answered %q to close", l)
 			}
-		case <-time.After(5 * time.Second):
-			return drv.Violf("helper process: Close did not return within 5 s")
+		case <-time.After(c17Patience):
+			return drv.Violf("helper process: Close did not return within the patience limit")
 		}
 		return nil
 	}
@@ -264,16 +267,16 @@ func c17LockProgram(steps []c17Step) (v *drv.Violation, conflicts int) {
 		desc := fmt.Sprintf("step %d: %s open by %s (timeout %d ms) with holders %v", si, st.Mode, st.Actor, st.Timeout, holderDesc(holders))
 		switch {
 		case len(conflicting) == 0:
-			r, got := wait(st.Actor, id, 10*time.Second)
+			r, got := wait(st.Actor, id, c17Patience)
 			if !got || r.kind != "ok" {
 				return drv.Violf("%s: no lock conflict, yet the open did not succeed promptly (result %q %s)", desc, r.kind, r.msg), conflicts
 			}
 			holders = append(holders, c17Holder{id: id, actor: st.Actor, mode: st.Mode, db: r.db})
 		case st.Timeout > 0:
 			conflicts++
-			r, got := wait(st.Actor, id, 10*time.Second)
+			r, got := wait(st.Actor, id, c17Patience)
 			if !got {
-				return drv.Violf("%s: conflicting open with a timeout did not return within 10 s", desc), conflicts
+				return drv.Violf("%s: conflicting open with a timeout did not return within the patience limit", desc), conflicts
 			}
 			if r.kind == "ok" {
 				if r.db != nil {
@@ -298,7 +301,7 @@ func c17LockProgram(steps []c17Step) (v *drv.Violation, conflicts int) {
 					return v, conflicts
 				}
 			}
-			r, got := wait(st.Actor, id, 10*time.Second)
+			r, got := wait(st.Actor, id, c17Patience)
 			if !got || r.kind != "ok" {
 				return drv.Violf("%s: still not opened 10 s after every conflicting holder closed (closing must release the lock); result %q %s", desc, r.kind, r.msg), conflicts
 			}
